@@ -241,4 +241,191 @@ theorem assignLocals_not_mem {al : List String} :
         · subst hx; simpa using hn
         · exact ih hrest x hx
 
+/-! ## the sorted key vector -/
+
+theorem mem_insertSorted {n x : String} : ∀ {l : List String}, x ∈ insertSorted n l ↔ x = n ∨ x ∈ l := by
+  intro l
+  induction l with
+  | nil => simp [insertSorted]
+  | cons m r ih =>
+    unfold insertSorted
+    split
+    · simp
+    · simp only [List.mem_cons, ih]
+      constructor
+      · rintro (h | h | h)
+        · exact Or.inr (Or.inl h)
+        · exact Or.inl h
+        · exact Or.inr (Or.inr h)
+      · rintro (h | h | h)
+        · exact Or.inr (Or.inl h)
+        · exact Or.inl h
+        · exact Or.inr (Or.inr h)
+
+theorem mem_sortedNames {x : String} : ∀ {xs : List String}, x ∈ sortedNames xs ↔ x ∈ xs := by
+  intro xs
+  induction xs with
+  | nil => simp [sortedNames]
+  | cons a r ih =>
+    have hunf : sortedNames (a :: r) =
+        if (sortedNames r).contains a then sortedNames r else insertSorted a (sortedNames r) := rfl
+    rw [hunf]
+    split
+    · rename_i hc
+      have ha : a ∈ sortedNames r := by simpa using hc
+      simp only [List.mem_cons, ih]
+      constructor
+      · exact Or.inr
+      · rintro (h | h)
+        · subst h; exact ih.mp ha
+        · exact h
+    · simp only [mem_insertSorted, ih, List.mem_cons]
+
+/-! ## verbatim: a group of one symbol whose name is free keeps it -/
+
+theorem assignSym_out_mono {name : String} {single : Bool} {st st' : St} {s : Sym}
+    (h : assignSym name single st s = .ok st') : ∀ p, p ∈ st.out → p ∈ st'.out := by
+  unfold assignSym at h
+  split at h
+  · cases h; intro p hp; exact List.mem_append_left _ hp
+  · split at h
+    · cases h; intro p hp; exact List.mem_append_left _ hp
+    · cases h
+
+theorem assignSym_used {name : String} {single : Bool} {st st' : St} {s : Sym}
+    (h : assignSym name single st s = .ok st') :
+    ∀ u, u ∈ st'.used → u ∈ st.used ∨ u = name ∨ ∃ k, u = cand name k := by
+  unfold assignSym at h
+  split at h
+  · cases h
+    intro u hu
+    rcases List.mem_cons.mp hu with hu | hu
+    · exact Or.inr (Or.inl hu)
+    · exact Or.inl hu
+  · split at h
+    · rename_i c hc
+      cases h
+      intro u hu
+      rcases List.mem_cons.mp hu with hu | hu
+      · obtain ⟨j, _, hj, _⟩ := firstFree_is_cand _ _ hc
+        exact Or.inr (Or.inr ⟨j, hu.trans hj⟩)
+      · exact Or.inl hu
+    · cases h
+
+theorem assignSyms_out_mono {name : String} {single : Bool} :
+    ∀ (syms : List Sym) {st st' : St}, assignSyms name single st syms = .ok st' → ∀ p, p ∈ st.out → p ∈ st'.out := by
+  intro syms
+  induction syms with
+  | nil => intro st st' h p hp; simp [assignSyms] at h; subst h; exact hp
+  | cons s r ih =>
+    intro st st' h p hp
+    unfold assignSyms at h
+    split at h
+    · rename_i st1 h1
+      exact ih h p (assignSym_out_mono h1 p hp)
+    · cases h
+
+theorem assignSyms_used {name : String} {single : Bool} :
+    ∀ (syms : List Sym) {st st' : St}, assignSyms name single st syms = .ok st' →
+      ∀ u, u ∈ st'.used → u ∈ st.used ∨ u = name ∨ ∃ k, u = cand name k := by
+  intro syms
+  induction syms with
+  | nil => intro st st' h u hu; simp [assignSyms] at h; subst h; exact Or.inl hu
+  | cons s r ih =>
+    intro st st' h u hu
+    unfold assignSyms at h
+    split at h
+    · rename_i st1 h1
+      rcases ih h u hu with h2 | h2
+      · exact assignSym_used h1 u h2
+      · exact Or.inr h2
+    · cases h
+
+theorem assignGroups_out_mono :
+    ∀ (gs : List (String × List Sym)) {st st' : St}, assignGroups st gs = .ok st' → ∀ p, p ∈ st.out → p ∈ st'.out := by
+  intro gs
+  induction gs with
+  | nil => intro st st' h p hp; simp [assignGroups] at h; subst h; exact hp
+  | cons g r ih =>
+    intro st st' h p hp
+    unfold assignGroups at h
+    split at h
+    · rename_i st1 h1
+      exact ih h p (assignSyms_out_mono _ h1 p hp)
+    · cases h
+
+/-- the group `(n, [sym])` keeps `n` when `n` is still free -/
+theorem assignGroup_keep {n : String} {sym : Sym} {st st' : St}
+    (h : assignGroup st (n, [sym]) = .ok st') (hfree : n ∉ st.used) : (sym, n) ∈ st'.out := by
+  unfold assignGroup at h
+  simp only [List.length_singleton, BEq.rfl] at h
+  unfold assignSyms at h
+  split at h
+  · rename_i st1 h1
+    simp [assignSyms] at h
+    subst h
+    unfold assignSym at h1
+    have : (true && !st.used.contains n) = true := by simpa using hfree
+    rw [if_pos this] at h1
+    cases h1
+    simp
+  · cases h
+
+/-- **per-scope verbatim**: if every group keyed `n` is `(n, [sym])`, no candidate of any key equals `n`, `n` is
+not yet used, and a group keyed `n` is still to come (or `(sym, n)` is already assigned), then `(sym, n)` is in
+the result -/
+theorem assignGroups_keep {n : String} {sym : Sym} :
+    ∀ (gs : List (String × List Sym)) {st st' : St}, assignGroups st gs = .ok st' →
+      (∀ g, g ∈ gs → g.1 = n → g.2 = [sym]) → (∀ g, g ∈ gs → ∀ k, cand g.1 k ≠ n) →
+      ((sym, n) ∈ st.out ∨ (n ∉ st.used ∧ ∃ g, g ∈ gs ∧ g.1 = n)) → (sym, n) ∈ st'.out := by
+  intro gs
+  induction gs with
+  | nil =>
+    intro st st' h _ _ hc
+    simp [assignGroups] at h; subst h
+    rcases hc with hc | ⟨_, g, hg, _⟩
+    · exact hc
+    · simp at hg
+  | cons g r ih =>
+    intro st st' h hgrp hcl hc
+    unfold assignGroups at h
+    split at h
+    · rename_i st1 h1
+      have hgrp' : ∀ g', g' ∈ r → g'.1 = n → g'.2 = [sym] := fun g' hg' => hgrp g' (List.mem_cons_of_mem _ hg')
+      have hcl' : ∀ g', g' ∈ r → ∀ k, cand g'.1 k ≠ n := fun g' hg' => hcl g' (List.mem_cons_of_mem _ hg')
+      apply ih h hgrp' hcl'
+      rcases hc with hc | ⟨hfree, g0, hg0, hg0n⟩
+      · exact Or.inl (assignSyms_out_mono _ h1 _ hc)
+      · by_cases hgn : g.1 = n
+        · -- this is the group of `n`
+          left
+          have h2 : g.2 = [sym] := hgrp g (List.mem_cons_self ..) hgn
+          have hg : g = (n, [sym]) := by cases g; simp_all
+          rw [hg] at h1
+          exact assignGroup_keep h1 hfree
+        · right
+          refine ⟨?_, ?_⟩
+          · intro hmem
+            rcases assignSyms_used _ h1 n hmem with h3 | h3 | ⟨k, h3⟩
+            · exact hfree h3
+            · exact hgn h3.symm
+            · exact hcl g (List.mem_cons_self ..) k h3.symm
+          · rcases List.mem_cons.mp hg0 with e | hg0'
+            · exact absurd (e ▸ hg0n) hgn
+            · exact ⟨g0, hg0', hg0n⟩
+    · cases h
+
+/-- the groups of a scope: keys are exactly the names that occur, the symbols are the filter -/
+theorem mem_groupsOf {syms : List (String × Sym)} {g : String × List Sym} :
+    g ∈ groupsOf syms ↔ (∃ p, p ∈ syms ∧ p.1 = g.1) ∧ g.2 = (syms.filter (fun p => p.1 == g.1)).map (·.2) := by
+  unfold groupsOf
+  simp only [List.mem_map, mem_sortedNames]
+  constructor
+  · rintro ⟨a, ⟨p, hp, rfl⟩, rfl⟩
+    exact ⟨⟨p, hp, rfl⟩, rfl⟩
+  · rintro ⟨⟨p, hp, hpe⟩, h2⟩
+    refine ⟨g.1, ⟨p, hp, hpe⟩, ?_⟩
+    cases g
+    simp_all
+
 end RsslVerif.Lemmas.Names
